@@ -90,7 +90,7 @@ def _toposort(wd, tier, seed, verdict, replay_cases, ev):
     elif tier == "thorough":
         runs = [("n4_loops_r2", 4, 2, "TRUE", 0, False), ("n4_r3", 4, 3, "FALSE", 0, True), ("n3_loops_r3", 3, 3, "TRUE", 0, True)]
     else:
-        runs = [("n4_r2", 4, 2, "FALSE", 0, True), ("n3_loops_r2", 3, 2, "TRUE", 0, True)]
+        runs = [("n4_r1", 4, 1, "FALSE", 0, True), ("n3_loops_r2", 3, 2, "TRUE", 0, True)]
     for name, n, maxroots, loops, minedges, do_trace in runs:
         cfg = "MCToposort_%s.cfg" % name
         module = "MCToposort"
@@ -167,18 +167,45 @@ def _toposort(wd, tier, seed, verdict, replay_cases, ev):
                         verdict.disagree(cls, {"n": rec["n"], "edges": rec["edges"], "roots": rec["roots"]},
                                          "recorded call rejected by Toposort!ValidOrder: out=%s panic=%r" % (rec["out"], rec["panic"]))
 
+        if do_trace and tier == "thorough" and replay_cases is None and ev["binding"].get("toposort_trace") is None:
+            # direction B self-test: drop one node from a recorded acyclic output -> TLC must reject exactly it
+            tl = open(trace_path).read().splitlines()[:3000]
+            k = next((i for i in range((seed * 53) % 1000, len(tl))
+                      if '"panic":""' in tl[i] and len(json.loads(tl[i])["out"]) >= 2), None)
+            if k is not None:
+                rec = json.loads(tl[k])
+                rec["out"] = rec["out"][1:]
+                keep = [l for l in tl if '"panic":""' in l]
+                pos = keep.index(tl[k])
+                keep[pos] = json.dumps(rec)
+                with open(os.path.join(wd, "ts_trace_selftest.ndjson"), "w") as fh:
+                    fh.write("\n".join(keep) + "\n")
+                with open(os.path.join(wd, "ToposortTrace_selftest.cfg"), "w") as fh:
+                    fh.write(TRACE_CFG % "ts_trace_selftest.ndjson")
+                tr = vf.tlc("ToposortTrace", "ToposortTrace_selftest.cfg", wd, workers=1, timeout=600)
+                rej = [int(x.group(1)) for x in re.finditer(r"REJECT (\d+)", open(tr.stdout_path).read())]
+                if rej != [pos + 1]:
+                    raise vf.MachineryError("trace self-test: dropped node in record %d not rejected (rejected: %s)" % (pos + 1, rej))
+                ev["binding"]["toposort_trace"] = True
+
         if ev["binding"].get("toposort") is None and replay_cases is None:
             # binding self-test: damage the expectation of an acyclic case; it must be reported
+            head = os.path.join(wd, "ts_selftest.jsonl")
             k = None
-            for idx, line in enumerate(open(casefile)):
-                if idx >= (seed * 131) % max(1, cnt[0] // 2) and '"cyclic":false' in line:
-                    k = idx
-                    break
+            with open(head, "w") as hf:
+                for idx, line in enumerate(open(casefile)):
+                    if idx >= 2000:
+                        break
+                    hf.write(line)
+                    if k is None and idx >= (seed * 131) % 1000 and '"cyclic":false' in line:
+                        k = idx
             if k is None:
                 raise vf.MachineryError("no acyclic case for the binding self-test")
-            rc, o, err = vf.run_driver(binary, ["-seed", str(seed), "-corrupt", str(k)], stdin_path=casefile, timeout=3000)
-            st = [json.loads(l) for l in o.splitlines() if '"stats"' in l][-1]["stats"]
-            extra = {c: v for c, v in st["class_counts"].items() if v != stats["class_counts"].get(c, 0)}
+            counts = []
+            for extra_args in ([], ["-corrupt", str(k)]):
+                rc, o, err = vf.run_driver(binary, ["-seed", str(seed)] + extra_args, stdin_path=head, timeout=3000)
+                counts.append([json.loads(l) for l in o.splitlines() if '"stats"' in l][-1]["stats"]["class_counts"])
+            extra = {c: v for c, v in counts[1].items() if v != counts[0].get(c, 0)}
             ev["binding"]["toposort"] = bool(extra)
             if not extra:
                 raise vf.MachineryError("binding self-test failed: corrupted toposort expectation (case %d) not reported" % k)
@@ -261,11 +288,19 @@ def _trie(wd, tier, seed, verdict, replay_hists, ev):
             ev["trie_codings"][k] = ev["trie_codings"].get(k, 0) + v
 
         if ev["binding"].get("trie") is None and replay_hists is None:
-            k = (seed * 7919) % cnt[0]
-            rc, o, err = vf.run_driver(binary, ["-seed", str(seed), "-corrupt", str(k)], stdin_path=casefile, timeout=3000)
-            got = sum(1 for l in o.splitlines() if '"stats"' not in l)
-            ev["binding"]["trie"] = got > len(lines)
-            if got <= len(lines):
+            head = os.path.join(wd, "trie_selftest.jsonl")
+            with open(head, "w") as hf:
+                for idx, line in enumerate(open(casefile)):
+                    if idx >= 200:
+                        break
+                    hf.write(line)
+            k = (seed * 7919) % min(200, cnt[0])
+            got = []
+            for extra_args in ([], ["-corrupt", str(k)]):
+                rc, o, err = vf.run_driver(binary, ["-seed", str(seed)] + extra_args, stdin_path=head, timeout=3000)
+                got.append([json.loads(l) for l in o.splitlines() if '"stats"' in l][-1]["stats"]["mismatches"])
+            ev["binding"]["trie"] = got[1] > got[0]
+            if got[1] <= got[0]:
                 raise vf.MachineryError("binding self-test failed: corrupted trie expectation (case %d) not reported" % k)
     if replay_hists is None and not ev["trie_final_index_width"].get("uint16"):
         raise vf.MachineryError("no trie case crossed the 255-node threshold (vacuous growth coverage)")
